@@ -105,6 +105,13 @@ var mgWants = []mgWant{
 	{"internal/progress/stats.go", "Stats", "Snapshot", "", "stats_Snapshot"},
 	{"internal/progress/stats.go", "Stats", "Total", "", "stats_Total"},
 	{"internal/progress/average.go", "DurationStats", "Record", "", "durationStats_Record"},
+	{"internal/run/test_runner.go", "Run", "run", "", "run_run"},
+	{"internal/run/test_runner.go", "Run", "Do", "", "run_Do"},
+	{"internal/run/test_runner.go", "Run", "teardownActiveScenario", "", "run_teardown"},
+	{"internal/run/test_runner.go", "Run", "reportSetupFailure", "", "run_reportSetupFailure"},
+	{"internal/run/test_runner.go", "Run", "pushMetrics", "", "run_pushMetrics"},
+	{"internal/run/test_runner.go", "Run", "printSummary", "", "run_printSummary"},
+	{"internal/run/test_runner.go", "Run", "fail", "", "run_fail"},
 }
 
 var timeConsts = map[string]string{"Nanosecond": "1", "Microsecond": "1000", "Millisecond": "1000000",
@@ -164,6 +171,7 @@ type mgCtx struct {
 	opaque     map[string]bool     // locals holding the result of an external call: their fields are projections (`.field`)
 	inLoop     int                 // > 0 inside a loop body: niladic methods are read again every time (oracles)
 	loopN      *int                // numbering of the hidden index variables of range loops
+	selN       *int                // numbering of the select statements of the function
 	body       ast.Node            // the function being translated
 	pkgDir     string              // directory of the file, relative to the repository
 	pkgDecls   []ast.Decl          // the declarations of the file being translated
@@ -511,6 +519,11 @@ func (c *mgCtx) call(x *ast.CallExpr) string {
 				return "(.len " + leanStr(p) + ")"
 			}
 		}
+		if f.Name == "make" && len(x.Args) >= 1 {
+			if _, isChan := x.Args[0].(*ast.ChanType); isChan {
+				return ".fresh" // a new channel
+			}
+		}
 		switch f.Name {
 		case "int", "int64", "uint64", "float64", "int32", "uint32", "uint":
 			if len(x.Args) == 1 {
@@ -771,6 +784,23 @@ func (c *mgCtx) callStmt(call *ast.CallExpr, deferred bool) string {
 	return c.unsupportedS(call)
 }
 
+// the text of a channel expression in a select, with the receiver and the parameters renamed (recv, arg0, …)
+func (c *mgCtx) src(e ast.Expr) string {
+	if p := c.path(e); p != "" {
+		return p
+	}
+	if call, ok := e.(*ast.CallExpr); ok {
+		var as []string
+		for _, a := range call.Args {
+			as = append(as, c.src(a))
+		}
+		return c.src(call.Fun) + "(" + strings.Join(as, ", ") + ")"
+	}
+	var b strings.Builder
+	_ = printer.Fprint(&b, c.fset, e)
+	return b.String()
+}
+
 func (c *mgCtx) assignTo(lhs ast.Expr, rhs string) string {
 	if id, ok := lhs.(*ast.Ident); ok && id.Name == "_" {
 		return "(.eval " + rhs + ")"
@@ -994,6 +1024,63 @@ func (c *mgCtx) stmt(s ast.Stmt) string {
 			return r
 		}
 		return c.unsupportedS(s)
+	case *ast.SelectStmt:
+		// `select`: the runtime picks one of the ready cases. Which one is the oracle's choice (`$select<k>`, k numbering the
+		// selects of the function in source order); which communications were offered is logged as an effect, so that a theorem
+		// can speak about the alternatives a wait has (a wait without a timeout alternative is a different trace).
+		k := *c.selN
+		*c.selN++
+		sel := "$select" + strconv.Itoa(k)
+		var offered []string
+		type arm struct{ body string }
+		var arms []arm
+		for _, cl := range x.Body.List {
+			cc, ok := cl.(*ast.CommClause)
+			if !ok {
+				return c.unsupportedS(s)
+			}
+			var pre []string
+			label := "default"
+			switch cm := cc.Comm.(type) {
+			case nil:
+			case *ast.ExprStmt:
+				u, ok := cm.X.(*ast.UnaryExpr)
+				if !ok || u.Op != token.ARROW {
+					return c.unsupportedS(s)
+				}
+				label = c.src(u.X)
+				pre = append(pre, "(.effect "+leanStr("receive "+label)+")")
+			case *ast.AssignStmt:
+				if len(cm.Rhs) != 1 {
+					return c.unsupportedS(s)
+				}
+				u, ok := cm.Rhs[0].(*ast.UnaryExpr)
+				if !ok || u.Op != token.ARROW {
+					return c.unsupportedS(s)
+				}
+				label = c.src(u.X)
+				pre = append(pre, "(.effect "+leanStr("receive "+label)+")")
+				for _, l := range cm.Lhs {
+					pre = append(pre, c.assignTo(l, ".fresh"))
+				}
+			case *ast.SendStmt:
+				label = "send " + c.src(cm.Chan)
+				pre = append(pre, "(.eval "+c.expr(cm.Value)+")", "(.effect "+leanStr(label)+")")
+			default:
+				return c.unsupportedS(s)
+			}
+			offered = append(offered, label)
+			arms = append(arms, arm{seq(append(pre, c.block(cc.Body)))})
+		}
+		r := "(.unsupported \"select: no such case\")"
+		for i := len(arms) - 1; i >= 0; i-- {
+			r = "(.ite (.bin .eq (.var " + leanStr(sel) + ") (.int " + strconv.Itoa(i) + "))\n  " + arms[i].body + "\n  " + r + ")"
+		}
+		return seq([]string{
+			"(.effect " + leanStr("select{"+strings.Join(offered, " | ")+"}") + ")",
+			"(.callS [" + leanStr(sel) + "] " + leanStr(sel) + " \"\" [])",
+			r,
+		})
 	case *ast.SwitchStmt:
 		if x.Init != nil || hasBranch(x.Body) {
 			return c.unsupportedS(s)
@@ -1355,7 +1442,7 @@ func translateMiniGo(repo string) string {
 		}
 		loopN := 0
 		c := &mgCtx{fset: fsets[w.file], atomics: atomCache[w.file], rename: map[string]string{}, alias: map[string]string{},
-			opaque: map[string]bool{}, loopN: &loopN, body: fd, pkgDir: filepath.Dir(w.file), pkgDecls: af.Decls,
+			opaque: map[string]bool{}, loopN: &loopN, selN: new(int), body: fd, pkgDir: filepath.Dir(w.file), pkgDecls: af.Decls,
 			structs: structCache[w.file], structVars: map[string][]string{}}
 		structLocals = map[string]bool{}
 		// locals that receive the results of a call with several results
@@ -1454,7 +1541,7 @@ func translateMiniGo(repo string) string {
 			if depth == len(steps)-1 {
 				fmt.Fprintf(&out, "def %s_init : Stmt :=\n  %s\n\n", w.lean, cc.block(init))
 			}
-			c2 := &mgCtx{fset: c.fset, atomics: c.atomics, rename: map[string]string{}, alias: c.alias, opaque: c.opaque, loopN: c.loopN, body: c.body, pkgDir: c.pkgDir, pkgDecls: c.pkgDecls, structs: c.structs, structVars: c.structVars}
+			c2 := &mgCtx{fset: c.fset, atomics: c.atomics, rename: map[string]string{}, alias: c.alias, opaque: c.opaque, loopN: c.loopN, selN: c.selN, body: c.body, pkgDir: c.pkgDir, pkgDecls: c.pkgDecls, structs: c.structs, structVars: c.structVars}
 			for k, v := range cc.rename {
 				c2.rename[k] = v
 			}
